@@ -104,6 +104,9 @@ func (t *hostTarget) Init(rng *rand.Rand, _ string) error {
 }
 
 func (t *hostTarget) Gen(rng *rand.Rand) *Input {
+	if rng.IntN(100) == 0 {
+		return hostScriptInput(rng.IntN(len(hostScripts)))
+	}
 	mode := "host"
 	if rng.IntN(3) == 0 {
 		mode = "guest"
@@ -150,6 +153,9 @@ func (t *hostTarget) Gen(rng *rand.Rand) *Input {
 }
 
 func (t *hostTarget) Exec(in *Input) string {
+	if auxGet(in.Aux, "script") != "" {
+		return t.runScript(in.Aux)
+	}
 	mode := auxGet(in.Aux, "mode")
 	h := &fuzzHandler{}
 	conn, err := protocol.NewConnection(t.logger, t.rtID, h)
@@ -250,6 +256,8 @@ func (t *hostTarget) FixedPlans(rng *rand.Rand) []fixedPlan {
 	}
 	framed := &Seed{Name: "framed RuntimeInfoResponse", Data: frame(t.info), LenFields: []LenField{{Off: 0, Width: 4, BE: true}}}
 	out = append(out, newFixedPlan(rng, framed, "mode=host", ":frame", nil))
+	// Adversarial peer scripts, each several times (the unheld variants depend on scheduling).
+	out = append(out, newExplicitPlan(8*len(hostScripts), hostScriptInput))
 	if len(t.seeds) > 1 {
 		f2 := &Seed{Name: "framed request", Data: frame(t.seeds[1].Data), LenFields: []LenField{{Off: 0, Width: 4, BE: true}}}
 		out = append(out, newFixedPlan(rng, f2, "mode=guest", ":frame", nil))
